@@ -57,6 +57,11 @@ func c03Apply(opt *vfPairOpt, e c03Edit, applied *bool) {
 				end.cutAfter = len(end.sentOut) + e.Off
 				*applied = true
 			}
+		case "addext":
+			if nr, ok := c03AddExt(rec, e.Off == 1); ok {
+				*applied = true
+				return [][]byte{nr}
+			}
 		case "inject":
 			typ, body := c03InjectBody(e.Inj)
 			inj := append([]byte{typ, 1, 1, byte(len(body) >> 8), byte(len(body))}, body...)
